@@ -459,6 +459,10 @@ def nmea_stream(rng):
             s += frame(1, 7, bytes(rng.randrange(256) for _ in range(4)))
             continue
         body = bytes(rng.choice(b'GPRMC,12.5AN$*') if rng.random() < .9 else rng.randrange(256) for _ in range(rng.randrange(0, 14)))
+        if rng.random() < 0.15:
+            # text that is well-formed in some multi-byte encoding (UTF-8, UTF-16, Latin-1): to the parser these are just bytes
+            body = body[:4] + rng.choice(['é', 'Zürich', '€', '😀', 'ß*', 'ñ$']).encode(rng.choice(['utf-8', 'utf-8', 'latin-1', 'utf-16-le'])
+                                                                                         if True else 'utf-8', 'ignore') + body[4:]
         x = 0
         for b in body:
             x ^= b
@@ -534,7 +538,45 @@ def exhaustive_nmea_transitions():
                 yield 'nmea|' + ';'.join(['P' + p.hex(), 'P' + bytes([d]).hex() + cont.hex()])
 
 
+# ---- UbxCID: equality, hash, membership (what the filter and the frame registry rest on) -----------------------
+CID_GRID = [(c, i) for c in (0, 1, 2, 3, 4, 5, 6, 8, 0x0a, 0x0c, 0x10, 0x13, 0x14, 0x28, 0x62, 0xb5, 0xff)
+            for i in (0, 1, 2, 3, 4, 7, 8, 9, 0x10, 0x14, 0x3e, 0x60, 0x62, 0xff)]
+
+
+def real_cid(line):
+    c, i = map(int, line.split('|')[1].split(':'))
+    a = UbxCID(c, i)
+    eq, neq, hsh, inl, dct = [], [], [], [], []
+    table = {UbxCID(x, y): (x, y) for x, y in CID_GRID}
+    for x, y in CID_GRID:
+        b = UbxCID(x, y)
+        if a == b:
+            eq.append(f'{x}:{y}')
+        if not (a != b):
+            neq.append(f'{x}:{y}')
+        if a in [b]:
+            inl.append(f'{x}:{y}')
+        if a == b and hash(a) != hash(b):
+            hsh.append(f'{x}:{y}')
+    got = table.get(a)
+    return (f'eq={",".join(eq)} ne={",".join(neq)} in={",".join(inl)} hashdiff={",".join(hsh) or "-"} '
+            f'dict={"%d:%d" % got if got else "missing"} size={len(table)} same={a == a} fields={a.cls}:{a.id}')
+
+
+def oracles_cid(line, real_out):
+    me = line.split('|')[1]
+    exp = f'eq={me} ne={me} in={me} hashdiff=- dict={me} size={len(CID_GRID)} same=True fields={me}'
+    what = 'two class/ids are equal exactly when class and id are equal (==, !=, in, hash, dict lookup agree)'
+    return [{'prop': p, 'ok': real_out == exp, 'expected': exp, 'observed': real_out[:300], 'what': what} for p in ('C04', 'C10', 'C11')], []
+
+
+def gen_cid(rng, n, profile):
+    for c, i in CID_GRID:
+        yield f'cid|{c}:{i}'
+
+
 COMPONENTS = {
+    'cid': {'real': real_cid, 'oracles': oracles_cid, 'gen': gen_cid},
     'ubx': {'real': real_ubx, 'oracles': oracles_ubx, 'gen': gen_ubx, 'features': features_ubx,
             'exhaustive': exhaustive_ubx_transitions},
     'nmea': {'real': real_nmea, 'oracles': oracles_nmea, 'gen': gen_nmea, 'exhaustive': exhaustive_nmea_transitions},
